@@ -19,7 +19,8 @@ EXPLANATION = (
     "DiskDict.__getitem__ maps a truncated/corrupt pickle to KeyError on every "
     "path (handlers for EOFError and UnpicklingError around pickle.load; every "
     "raise is a KeyError whose name is bound at that point); (DIRS) directory "
-    "creation is idempotent and precedes the write. Decides the idiom, not the "
+    "creation is idempotent and precedes the write; (PROMOTE) a file is moved onto a "
+    "cache name only by the call that wrote and closed it. Decides the idiom, not the "
     "filesystem's behaviour."
 )
 ASSUMPTIONS = (
@@ -334,6 +335,51 @@ def rule_atomic(ctx):
     return r
 
 
+PUBLISHERS = REPLACERS | {"shutil.move", "shutil.copy", "shutil.copy2", "shutil.copyfile", "os.link",
+                          "os.symlink"}
+
+
+def rule_promote(ctx):
+    """A file may be moved onto a name of the cache only by the function execution that
+    wrote and closed it: anything else (a 'recovery' of temporaries found on disk, a
+    migration of files between layouts) publishes bytes whose completeness nobody
+    knows - the temporary of a writer that died mid-dump is a truncated pickle."""
+    r = RuleResult("C15-PROMOTE", "only freshly written files are moved onto entry names", 0)
+    for f in _with_helpers(ctx, _scope(ctx)):
+        fl = None
+        for call in [n for n in walk_local(f.node) if isinstance(n, ast.Call)]:
+            d = dotted(call.func)
+            src = None
+            if d in PUBLISHERS and len(call.args) >= 2:
+                src = call.args[0]
+            elif isinstance(call.func, ast.Attribute) and call.func.attr in ("replace", "rename", "link_to",
+                                                                             "hardlink_to") \
+                    and len(call.args) == 1 and d not in PUBLISHERS and not call.keywords:
+                # pathlib: tmp.replace(final); str.replace has two arguments
+                src = call.func.value
+            if src is None:
+                continue
+            fl = fl or ctx.flow(f)
+            cn = fl.cfg.containing(call, f.module.parents)
+            key = ctx.key(f, "C15-PROMOTE", C.unparse(src, 40))
+            opens = []
+            for c2 in [n for n in walk_local(f.node) if isinstance(n, ast.Call)]:
+                if not _is_write_open(c2):
+                    continue
+                pexpr = _opened_path(c2)
+                if C.unparse(pexpr) == C.unparse(src) or _names_tempfile(ctx, f, src, pexpr):
+                    on = fl.cfg.containing(c2, f.module.parents)
+                    if on is not None and fl.cfg.dominates(on.id, cn.id):
+                        opens.append(c2)
+            if opens:
+                r.ok(key, C.loc(f, call), f"`{C.unparse(src, 40)}` was written by this call before it is moved")
+            else:
+                r.violation(key, C.loc(f, call), f"`{C.unparse(call, 70)}` moves a file onto a cache name "
+                            f"that this function did not write: a temporary left by a writer that died "
+                            f"mid-write is published as a (truncated) entry")
+    return r
+
+
 def rule_reader(ctx):
     r = RuleResult("C15-READER", "reader treats a corrupt entry as absent", 2)
     dd = ctx.p.cls(C.UTILS, "DiskDict")
@@ -469,4 +515,4 @@ def rule_dirs(ctx):
     return r
 
 
-RULES = [rule_atomic, rule_reader, rule_dirs]
+RULES = [rule_atomic, rule_promote, rule_reader, rule_dirs]
